@@ -53,6 +53,19 @@ Theorem C28_altered_rejected_or_collision : forall H, hash32 H ->
 Proof. exact altered_rejected_or_collision. Qed.
 Print Assumptions C28_altered_rejected_or_collision.
 
+(* a proof with inserted elements (longer than the tree has levels) is rejected
+   with a verification error ... *)
+Theorem C28_overlong_rejected : forall H vt key h p,
+  (mt_level vt < length p)%nat -> mt_add H vt key h p = HErr HVerify.
+Proof. exact overlong_rejected. Qed.
+Print Assumptions C28_overlong_rejected.
+
+(* ... while the code before /repo 33272cd crashed on it *)
+Theorem C28_add_prefix_refuted : forall H,
+  exists vt key h p, (mt_level vt < length p)%nat /\ mt_add_old H vt key h p = HErr HPanic.
+Proof. exact mt_add_old_refuted. Qed.
+Print Assumptions C28_add_prefix_refuted.
+
 (* rewinding to any shorter length gives exactly the roots and the header of
    accumulating only that prefix *)
 Theorem C28_rewind : forall H, hash32 H -> forall ops l,
